@@ -112,6 +112,15 @@ func formatEnumMemberName(name string) string {
 	return memberName
 }
 
+// escapeDocstring makes a text safe to be written between `"""`: a backslash
+// starts an escape sequence there (`C:\Users` is a syntax error) and `"""` ends
+// the string.
+func escapeDocstring(text string) string {
+	text = strings.ReplaceAll(text, "\\", "\\\\")
+
+	return strings.ReplaceAll(text, `"""`, `\"\"\"`)
+}
+
 func formatIdentifier(name string) string {
 	name = strings.TrimLeft(identifierCharacters(name), "$_")
 	return escapeKeyword(tools.SnakeCase(escapeIdentifier(name)))
